@@ -136,6 +136,8 @@ class ArffDataReader(Filter[Iterable[str], Iterable[Union[Dense,Sparse]]]):
     _trans = str.maketrans('','',' \t\n\r\v\f')
     _r_quoted = re.compile(r"""'(?:[^'\\]|\\.)*'|"(?:[^"\\]|\\.)*\"""")
 
+    _r_sparse_missing = re.compile(r'\s\?\s*[,}]')
+
     def _sans_quoted(self, line:str) -> str:
         #a ? inside of a quoted value is a part of that value, it is not a missing value marker
         return self._r_quoted.sub("''",line) if "'" in line or '"' in line else line
@@ -166,7 +168,8 @@ class ArffDataReader(Filter[Iterable[str], Iterable[Union[Dense,Sparse]]]):
 
         for line in lines:
             if line[0] == "%": continue
-            missing = "?" in line and (" ?," in self._sans_quoted(line) or line[-3:] == " ?}")
+            #blanks are allowed between a value and the comma or brace that follows it
+            missing = "?" in line and self._r_sparse_missing.search(self._sans_quoted(line)) is not None
             yield line,missing
 
 class ArffLineReader(Filter[str, Sequence[str]]):
